@@ -6,3 +6,16 @@ Definition expected_key_check_sites : list (string * string * string * string) :
   [("Client.check_key", "key", "self.allow_unicode_keys", "key_prefix");
    ("PooledClient.check_key", "key", "self.allow_unicode_keys", "self.key_prefix");
    ("HashClient._get_client", "server_key", "self.allow_unicode_keys", "self.key_prefix")].
+
+(* "it is then transmitted as exactly prefix + encoded key", at the call sites: every command of Client that takes keys hands
+   the client's own prefix to the key check (directly, or through _fetch_cmd, which passes its parameter on); the two
+   commands whose arguments are not keys (stats, cache_memlimit) leave it out *)
+Definition key_commands : list string :=
+  ["Client.get"; "Client.gat"; "Client.get_many"; "Client.gets"; "Client.gats"; "Client.gets_many"; "Client.delete";
+   "Client.delete_many"; "Client.incr"; "Client.decr"; "Client.touch"; "Client._store_cmd"; "Client._fetch_cmd"].
+Definition prefix_row_ok (r : string * string * string) : bool :=
+  let '(fn, callee, arg) := r in
+  (String.eqb arg "self.key_prefix" || (String.eqb fn "Client._fetch_cmd" && String.eqb arg "key_prefix")
+   || ((String.eqb fn "Client.stats" || String.eqb fn "Client.cache_memlimit") && String.eqb arg "<default>"))%bool.
+Definition prefix_sites_ok (t : list (string * string * string)) : bool :=
+  (forallb prefix_row_ok t && forallb (fun c => existsb (fun r => String.eqb (fst (fst r)) c) t) key_commands)%bool.
